@@ -335,7 +335,39 @@ class SplineV:
 
 
 def lib_ius(ev, a, k, n, mod):
+    kk = k.get("k", sp.Integer(3))
+    if _const_int(kk) != 3:
+        raise ev.err("InterpolatedUnivariateSpline of a degree other than 3", n, mod)
     return SplineV(as_sym(a[0]), as_sym(a[1]))
+
+
+lib_ius.kw = {"k"}
+
+
+class SmoothSplineV:
+    """scipy UnivariateSpline without s=0: a smoothing spline (FITPACK chooses the knots for a residual s = len(x)): it does not pass through the data"""
+
+    def __init__(self, x, y, s):
+        self.x, self.y, self.s = x, y, s
+
+    def sym_call(self, ev, args, kwargs, n, mod):
+        return linear("SMOOTHING_SPLINE", [self.x, self.y, as_sym(args[0])], 1, same_scale_groups=((0, 2),))
+
+
+def lib_us(ev, a, k, n, mod):
+    """scipy.interpolate.UnivariateSpline(x, y, w=None, bbox=[None, None], k=3, s=None): with s = 0 the interpolating spline
+    (InterpolatedUnivariateSpline is exactly that, installed source); any other s smooths"""
+    kk = k.get("k", a[4] if len(a) > 4 else sp.Integer(3))
+    s_ = k.get("s", a[5] if len(a) > 5 else None)
+    w_ = k.get("w", a[2] if len(a) > 2 else None)
+    if w_ is not None or _const_int(kk) != 3:
+        raise ev.err("UnivariateSpline with weights or a degree other than 3", n, mod)
+    if s_ is not None and is_sym(s_) and s_ == 0:
+        return SplineV(as_sym(a[0]), as_sym(a[1]))
+    return SmoothSplineV(as_sym(a[0]), as_sym(a[1]), s_)
+
+
+lib_us.kw = {"k", "s", "w"}
 
 
 def grad(expr):
@@ -476,7 +508,7 @@ DF_LIB = {
     "row.items": lib_row_items, "len": lib_len_seq,
     "pandas.DataFrame": lib_dataframe, "range": lib_range_sym, "numpy.linspace": lib_linspace,
     "numpy.min": lib_min, "numpy.max": lib_max, "numpy.amin": lib_min, "numpy.amax": lib_max,
-    "scipy.interpolate.InterpolatedUnivariateSpline": lib_ius, "numpy.gradient": lib_gradient, "numpy.argsort": lib_argsort,
+    "scipy.interpolate.InterpolatedUnivariateSpline": lib_ius, "scipy.interpolate.UnivariateSpline": lib_us, "numpy.gradient": lib_gradient, "numpy.argsort": lib_argsort,
     "identity": lib_identity, "ndarray.to_numpy": lib_to_numpy, "numpy.array": lib_np_array,
     "DataFrame.to_string": lib_df_to_string, "round": lib_round,
 }
